@@ -79,6 +79,15 @@ def run(c):
     g.calc_only = True      # combos that calculate but would not validate (rate key under a country without regime)
     n = 2500 if quick else 100000
     docs = [g.doc() for _ in range(n)]
+    # surcharge-heavy Spanish documents under the precise rule: different surcharged rates of one category on rows of
+    # different precision (the category surcharge is an accumulation over the rates, its precision must not depend on which comes first)
+    g.eqs_bias = 0.9
+    g.price_decimals = [2, 2, 5, 6, 6]
+    docs += [g.doc(force_rule=cg.PRECISE, regimes=("ES",), max_lines=3) for _ in range(300 if quick else 60000)]
+    g.eqs_bias = 0
+    g.price_decimals = None
+    # ... and documents CONSTRUCTED to sit just under a rounding boundary of the category accumulation, in both row orders
+    docs += cg.boundary_pair_docs(c.rng, 150 if quick else 5000)
     docs = [d for d in docs if cg.in_domain(d)[0]]
     base = cg.run3(docs)
     for r in base[:2]:
